@@ -176,14 +176,24 @@ def gen_case(seed, idx):
         argv = ["config.toml"]
     else:
         argv = argv_for(sorted(list(srcs) + list(bad)), opts)
-    pos = min([argv.index(p) for p in bad] or [0]) if toml is None else 0
+    companion = toml is None and defect not in ("D6", "D5") and r.random() < 0.25
+    if companion:
+        # the defective configuration is built together with a healthy one: the invocation must still fail and the
+        # defective configuration's font must not be (re)written
+        good = dict(opts)
+        good["output_file"] = "Good" + gen.ext_for(fmt)
+        good["family"] = "Good Companion"
+        ops.append({"op": "write", "path": "bad.toml", "content": "text:" + gen.toml_config(opts, sorted(list(srcs) + list(bad))), "keep": True})
+        ops.append({"op": "write", "path": "good.toml", "content": "text:" + gen.toml_config(good, sorted(srcs)), "keep": True})
+        argv = ["bad.toml", "good.toml"] if r.random() < 0.5 else ["good.toml", "bad.toml"]
+    pos = min([argv.index(p) for p in bad if p in argv] or [0]) if toml is None else 0
     ops.append({"op": "invoke", "cwd": ".", "argv": argv, "build_dir": "build", "label": "bad1", "sched": gen.sched(rs), "final": True})
     ops.append({"op": "invoke", "cwd": ".", "argv": argv, "build_dir": "build", "label": "bad2", "sched": gen.sched(rs), "final": True})
     cid = "c17-%d-%d" % (seed, idx)
     job = {"id": cid + ".j0", "root_id": "c17/%d/%d" % (seed, idx), "hashseed": H(seed, "c17", idx, "hs") % 4294967296,
            "clock_seed": idx, "readdir_seed": H(seed, "c17", idx, "rd") % (1 << 31), "keep_trace": False, "ops": ops}
     return {"id": cid, "jobs": [job], "meta": {"defect": defect, "fmt": fmt, "warm": warm, "font": opts["output_file"],
-                                               "pos": pos, "n_args": len(argv), "bad": sorted(bad), "same_name": same_name, "other_dir": other_dir}}
+                                               "pos": pos, "n_args": len(argv), "bad": sorted(bad), "same_name": same_name, "other_dir": other_dir, "companion": companion}}
 
 
 def gen_cases(seed, tier, scale=1.0):
@@ -246,7 +256,7 @@ def signature(case, results):
     lab = {r.get("label"): r for r in invs}
     m = case["meta"]
     posb = 0 if m["pos"] == 0 else (2 if m["pos"] >= m["n_args"] - 1 else 1)
-    return (m["defect"], m["fmt"], m["warm"], m.get("same_name"), m.get("other_dir"), posb, _failing_rule(lab["bad1"]))
+    return (m["defect"], m["fmt"], m["warm"], m.get("same_name"), m.get("other_dir"), m.get("companion"), posb, _failing_rule(lab["bad1"]))
 
 
 def describe(case):
